@@ -112,7 +112,7 @@ def run(run, replay=None):
     lib = Source(run.repo, 'crates/erg_common/lib.rs')
     pu = Source(run.repo, 'crates/erg_common/pathutil.rs')
     for d in (lib.fn('normalize_path').describe(), pu.fn('new', impl=r'NormalizedPathBuf').describe()):
-        d["unit_label"] = d.get("what", "") + " (BOUNDED run-time-checked contract only)"
+        d["unit_label"] = d.get("item", "") + " (BOUNDED run-time-checked contract only)"
         run.functions.append(d)
     # textual anchor: NormalizedPathBuf::new is normalize_path(cheap_canonicalize_path(&path))
     if 'normalize_path(cheap_canonicalize_path(&path))' not in pu.fn('new', impl=r'NormalizedPathBuf').text:
